@@ -119,8 +119,8 @@ func AppendSENString(buf []byte, s string, htmlSafe bool) []byte {
 	b0 := len(buf)
 	m := senMap[s[0]]
 	quote := maxTokenLen < len(s) || (m != 'o' && m != '8' && !(!htmlSafe && m == 'h'))
-	if 3 <= len(s) && s[0] == 0xEF && s[1] == 0xBB && s[2] == 0xBF {
-		quote = true // otherwise taken for a BOM at the start of a document
+	if s[0] == 0xEF {
+		quote = true // otherwise taken for (the start of) a BOM at the start of a document
 	}
 	buf = append(buf, '"')
 	start := 0
